@@ -170,3 +170,33 @@ where
 }
 
 pub use crate::channel::verif::VQueue;
+
+use std::collections::HashMap;
+use std::sync::Mutex;
+
+static CHANNEL_OPS: Mutex<Option<HashMap<usize, (u64, u64)>>> = Mutex::new(None);
+
+/// Called by `Sender::send` after a successful push (`push = true`) and by
+/// `Receiver::recv` after a successful pop (`push = false`).
+pub(crate) fn on_channel_op(channel_id: usize, push: bool) {
+    if let Ok(mut g) = CHANNEL_OPS.lock() {
+        if let Some(m) = g.as_mut() {
+            let e = m.entry(channel_id).or_insert((0, 0));
+            if push {
+                e.0 += 1;
+            } else {
+                e.1 += 1;
+            }
+        }
+    }
+}
+
+/// Starts (or restarts) counting the pushes and pops of every mailbox.
+pub fn channel_ops_start() {
+    *CHANNEL_OPS.lock().unwrap() = Some(HashMap::new());
+}
+
+/// `(pushes, pops)` per mailbox id (the id printed by `Address`'s `Debug`).
+pub fn channel_ops() -> HashMap<usize, (u64, u64)> {
+    CHANNEL_OPS.lock().unwrap().clone().unwrap_or_default()
+}
